@@ -18,6 +18,15 @@ PROPS = {
                  "(van 't Hoff + analytical expression + molar-volume pressure term); the difference code - specification normalises to 0 exactly. "
                  "The fixed point of the Newton solver (mass action / mole balance at convergence for every input and database) is NOT decided.",
          "note": "Doubles read as mathematical reals; log10 uninterpreted; astvc (vf/astvc) and clang's AST are trusted. Partial claim: only the named function-level facts."},
+ "C08": {"claimed": True, "engine": "A+B", "level": "proof",
+         "technique": "CBMC contracts on functions cut mechanically from utilities.cpp (loop contracts for read-only walks, bounded unwinding otherwise) + AST-typed call-site capacity obligations",
+         "text": "C-string helpers of utilities.cpp (copy_token, str_tolower/upper, squeeze_white, isamong, strcmp_nocase, strcmp_nocase_arg1) cut from /repo on every run: memory safety and functional result "
+                 "for all byte strings (isamong/strcmp_nocase*: unbounded, loop contracts; the writing loops: bounded by unwinding, listed apart). copy_token(char*) bounds itself to MAX_LENGTH, and every one of its 126 call "
+                 "sites with a fixed-size destination provides >= MAX_LENGTH bytes; every strcpy_safe/strcat_safe site passes max <= capacity; the heap-buffer copies in cleanup_after_parser/get_line fit on every path; "
+                 "strcpy_safe/strcat_safe stay within max on the normal path; the tail of set_and_run_wrapper reports non-convergence (error) and MASS_BALANCE faithfully. "
+                 "Absence of crashes in the 125 k-line engine as a whole, leaks, file faults and everything that reaches the helpers as std::string is NOT decided.",
+         "note": "Known finding (printed as KNOWN-FINDING): strcpy_safe/strcat_safe terminate the process on an oversize source. Bounded units are not counted as proved. "
+                 "Counterexamples of Engine A units are replayed natively under ASan/UBSan. C locale models of ctype; call sites located by text scan then typed by clang."},
  "C12": {"claimed": True, "engine": "B", "level": "proof",
          "technique": "coefficients read from clang's AST as exact rationals; Butcher order conditions in Q; path-wise VCs with z3",
          "text": "Lemmas over the Runge-Kutta tableau literally coded in Phreeqc::rk_kinetics: every stage combination is linear in the stored stage rates with the strides "
